@@ -20,7 +20,7 @@ Fixpoint to_digits_aux (r : N) (fuel : nat) (n : N) (acc : list N) : list N :=
   end.
 (* most significant digit first; 0 is [0]; the fuel (number of bits of n) is proved sufficient for r >= 2 *)
 Definition to_digits (r n : N) : list N :=
-  if n =? 0 then [0] else to_digits_aux r (N.size_nat n) n [].
+  if n =? 0 then [0] else to_digits_aux r (S (N.to_nat (N.log2 n))) n [].
 Definition of_digits (r : N) (ds : list N) : N := fold_left (fun a d => a * r + d) ds 0.
 
 Definition digit_char (upper : bool) (d : N) : N :=
